@@ -657,6 +657,8 @@ public:
       J.attribute("line", lineOf(F->getLocation()));
       J.attribute("externC", isExternC(F));
       J.attribute("static", F->getStorageClass() == SC_Static || !F->isExternallyVisible());
+      // ELF visibility after `#pragma GCC visibility`, visibility attributes and -fvisibility: a hidden function is no export
+      if (F->isExternallyVisible() && F->getLinkageAndVisibility().getVisibility() != DefaultVisibility) J.attribute("hidden", true);
       J.attribute("ret", ty(F->getReturnType()));
       J.attribute("rets", tySugar(F->getReturnType()));
       if (F->isNoReturn()) J.attribute("noreturn", true);
